@@ -552,7 +552,8 @@ func cmdMercReport(seed int64, n int, out, replay, tier string) {
 		for _, d := range directedMerc() {
 			cs = append(cs, mercCase(d, 6*k, "directed"))
 		}
-		for len(cs) < n {
+		// n random histories IN ADDITION to the directed tables (which grow with every scenario found worth keeping)
+		for random := 0; random < n; random++ {
 			ver := 1 + r.Intn(4)
 			cs = append(cs, mercCase(genMercHistory(r, ver, 2+r.Intn(9)), k, "history"))
 		}
